@@ -200,6 +200,22 @@ Definition bin_cache (s : fs) (base : path) (cache : list (list N)) : list op :=
 Definition bin_install_ops (s : fs) (base : path) (cat pid pf : str) (chunks cache : list (list N)) : list op :=
   bin_stage s base cat pid pf chunks ++ [Rename (bin_tmp base cat pid pf) (bin_final base cat pf)]
   ++ bin_cache s base cache.
+(* binpkg replace (repaired: fixes/C29-binpkg-replace-removes-old): install.finalize_data renames
+   the new tarball in; when the replaced package has another file name (version bump, 1.0 vs
+   1.0-r0) its tarball is unlinked afterwards (unlink_if_exists: nothing if it is not there);
+   then the Packages cache as for install *)
+Definition bin_unlink_old (s : fs) (base : path) (cat old pf : str) : list op :=
+  if path_eq_dec (bin_final base cat old) (bin_final base cat pf) then []
+  else if bound s (bin_final base cat old) then [Unlink (bin_final base cat old)] else [].
+Definition bin_replace_ops (s : fs) (base : path) (cat pid old pf : str) (chunks cache : list (list N)) : list op :=
+  bin_stage s base cat pid pf chunks
+  ++ (Rename (bin_tmp base cat pid pf) (bin_final base cat pf) :: bin_unlink_old s base cat old pf)
+  ++ bin_cache s base cache.
+(* the one crash point (strictly between lo and hi) at which both tarballs are listed *)
+Definition bin_replace_lo (s : fs) (base : path) (cat pid pf : str) (chunks : list (list N)) : nat :=
+  length (bin_stage s base cat pid pf chunks).
+Definition bin_replace_hi (s : fs) (base : path) (cat pid old pf : str) (chunks : list (list N)) : nat :=
+  bin_replace_lo s base cat pid pf chunks + 1 + length (bin_unlink_old s base cat old pf).
 Definition bin_uninstall_ops (s : fs) (base : path) (cat old : str) : list op :=
   let a := [Unlink (bin_final base cat old)] in
   a ++ rmdir_if_empty (run a s) (base ++ [cat]).
@@ -253,7 +269,7 @@ Definition bin_view (s : fs) (base : path) : val :=
   else VErr INVALIDCPV.
 
 (* ------------------------------------------------------------------ scenarios for the harness *)
-Inductive skind := KVInstall | KVUninstall | KVReplace | KBInstall | KBUninstall.
+Inductive skind := KVInstall | KVUninstall | KVReplace | KBInstall | KBUninstall | KBReplace.
 Record scen := {
   sc_kind : skind;
   sc_fs : fs;                  (* the scratch tree before the operation *)
@@ -274,12 +290,15 @@ Definition sc_ops (c : scen) : list op :=
   | KVReplace => vdb_replace_ops (sc_fs c) (sc_loc c) (sc_cat c) (sc_old c) (sc_pf c) (sc_tree c) (sc_items c)
   | KBInstall => bin_install_ops (sc_fs c) (sc_loc c) (sc_cat c) (sc_pid c) (sc_pf c) (sc_chunks c) (sc_cache c)
   | KBUninstall => bin_uninstall_ops (sc_fs c) (sc_loc c) (sc_cat c) (sc_old c)
+  | KBReplace => bin_replace_ops (sc_fs c) (sc_loc c) (sc_cat c) (sc_pid c) (sc_old c) (sc_pf c) (sc_chunks c) (sc_cache c)
   end.
 Definition sc_window (c : scen) : nat * nat :=
   match sc_kind c with
   | KVReplace => (replace_lo (sc_loc c) (sc_fs c) (sc_cat c) (sc_pf c) (sc_items c),
                   replace_hi (sc_loc c) (sc_fs c) (sc_cat c) (sc_old c) (sc_pf c) (sc_tree c) (sc_items c))
   | KVUninstall => (1, uninstall_hi (sc_loc c) (sc_cat c) (sc_old c) (sc_tree c))
+  | KBReplace => (bin_replace_lo (sc_fs c) (sc_loc c) (sc_cat c) (sc_pid c) (sc_pf c) (sc_chunks c),
+                  bin_replace_hi (sc_fs c) (sc_loc c) (sc_cat c) (sc_pid c) (sc_old c) (sc_pf c) (sc_chunks c))
   | _ => (0, 0)
   end.
 Definition is_vdb (c : scen) : bool :=
